@@ -91,7 +91,7 @@ pub fn run(args: &[String]) -> String {
         // event (also the same key a third time). `events <aspect>`: 1 = modifiers only (C04), 2 = decoded keys only (C14), 3 = both
         "events" => {
             let aspect: u8 = if args.len() > 1 { args[1].parse().unwrap() } else { 3 };
-            let sc = match aspect { 1 => "events_mods", 2 => "events_decode", _ => "events" };
+            let sc = match aspect { 1 => "events_mods", 2 => "events_decode", 6 => "events_values", 7 => "events_values_all", _ => "events" };
             let n = X_NKEYS as u32;
             for k0 in 0..n {
                 for s0 in 0..3u32 {
